@@ -204,6 +204,11 @@ bool Interp::exec_coll(Interp &I, const Stmt &s)
             auto zero = wire<stdlib::const_>(w, Int{s.kwi("zero", 0)}).template as<TS<Int>>();
             out = wire<stdlib::reduce_>(w, f, Port<S_TSD>{w, d.ref}, zero, Bool{false});
         }
+        else if (d.shape == "tsd" && s.kw.count("zts"))
+        {
+            // the zero is a LIVE time-series (it ticks and may be a re-pointed reference)
+            out = wire<stdlib::reduce_>(w, f, Port<S_TSD>{w, d.ref}, I.pi(s.kws("zts")));
+        }
         else if (d.shape == "tsd")
         {
             if (s.kw.count("zero")) out = wire<stdlib::reduce_>(w, f, Port<S_TSD>{w, d.ref}, Int{s.kwi("zero")});
